@@ -148,6 +148,8 @@ def run_history(ctx, mdib_path, rng, n_tx, hooks=(), scripts=None, instance_id=1
         w.load_lines()
         for h in hooks:
             h.start(w)
+        if callable(scripts):
+            scripts = scripts(w)
         k = 0
         while True:
             if scripts is not None:
@@ -282,6 +284,12 @@ def run(ctx, hook_cls=C02Hook, prop='C02', drv='drv_c02'):
         w, history, infos = run_history(ctx, MDIBS[c.get('mdib_index', 0)], ctx.subrng('corpus', ci), 0, [hook_cls(ctx)], scripts=c['history'])
         compare_model(ctx, w, history, drv)
         ctx.count('corpus-cases')
+    for mi, path in enumerate(MDIBS):
+        w, history, infos = run_history(ctx, path, ctx.subrng('classsweep', mi), 0, [hook_cls(ctx)], scripts=lambda w_: w_.class_sweep_scripts())
+        for s, info in zip(history, infos):
+            ctx.case({'sweep': mi, 's': s}, nontrivial=True)
+            ctx.count('class-sweep:' + info['outcome'])
+        compare_model(ctx, w, history, drv)
     for hi in range(n_hist):
         rng = ctx.subrng('hist', hi)
         path = MDIBS[hi % len(MDIBS)]
